@@ -395,7 +395,7 @@ def _srcs(tier):
     return st.one_of(
         st.fixed_dictionaries({"fmt": st.just("mol2"), "mols": gen, "substructure": st.booleans()}),
         st.fixed_dictionaries({"fmt": st.just("xyz"), "mols": gen}),
-        st.sampled_from([{"fmt": "mol2", "file": f} for f in MOL2_FILES[:4]] + [{"fmt": "xyz", "file": f} for f in XYZ_FILES]),
+        st.sampled_from([{"fmt": "mol2", "file": f} for f in MOL2_FILES[:4] + ["isornitrate_mol2", "isornitrate_mol2"]] + [{"fmt": "xyz", "file": f} for f in XYZ_FILES]),
     )
 
 
